@@ -133,6 +133,7 @@ Record node := {
   n_iswait : list is_req;        (* InstallSnapshot handlers parked in applyCond.Wait *)
   n_fsm : list N;                (* the user state machine: applied payloads *)
   n_snap_every : N;              (* NeedSnapshot: log size multiple of this (0 = never) *)
+  n_pad : N;                     (* zero bytes the harness FSM appends to its snapshots *)
   (* crash injection *)
   n_budget : option N;           (* storage writes still allowed; None = unlimited *)
   n_frozen : bool;               (* a write was refused: the goroutine is stuck there *)
@@ -145,7 +146,7 @@ Record node := {
 #[export] Instance eta_node : Settable _ := settable! Build_node
   <n_id; n_et; n_ld; n_pterm; n_pvote; n_term; n_vote; n_log; n_snaps; n_partial; n_open; n_role; n_commit; n_applied; n_lii; n_lit;
    n_conf; n_cconf; n_leader; n_followers; n_pending; n_ro; n_should_verify; n_cfg_fid; n_hb_rounds; n_lease; n_contact;
-   n_rounds; n_next_round; n_tasks; n_cv; n_iswait; n_fsm; n_snap_every; n_budget; n_frozen; n_out;
+   n_rounds; n_next_round; n_tasks; n_cv; n_iswait; n_fsm; n_snap_every; n_pad; n_budget; n_frozen; n_out;
    n_results; n_applies>.
 #[export] Instance eta_conds : Settable _ := settable! Build_conds <cv_apply; cv_commit; cv_ro; cv_election; cv_snapshot>.
 #[export] Instance eta_fstate : Settable _ := settable! Build_fstate <f_next; f_match; f_snap>.
